@@ -42,76 +42,91 @@ pub fn check<U: CircuitUni>(p: &Program, hash_seed: u64, cfg: &ProverCfg) -> Ver
     };
     let pubs: Vec<U::EF> = p.publics.iter().map(|v| f_from_u64s::<U::BF, U::EF>(v)).collect();
     let privs: Vec<U::EF> = p.privates.iter().map(|v| f_from_u64s::<U::BF, U::EF>(v)).collect();
-    let w = opsat::byzantine_assignment(&circuit, &pubs, &privs);
-    if std::env::var("VERIF_DUMP_OPS").is_ok() {
-        for (i, op) in circuit.ops.iter().enumerate() {
-            eprintln!("op {i}: {op:?}");
+    // candidate assignments: the honest-wherever-determined one, then one per hint output with that
+    // output off by one (hint outputs are bound by the emitted bool checks / recompositions only:
+    // if one of those relations were dropped, only a deviating hint value can show it)
+    let n_dev = opsat::hint_outputs(&circuit).min(12);
+    for dev in std::iter::once(None).chain((0..n_dev).map(Some)) {
+        let w = opsat::byzantine_assignment_dev(&circuit, &pubs, &privs, dev);
+        let v = (|| -> Verdict {
+        if std::env::var("VERIF_DUMP_OPS").is_ok() {
+            for (i, op) in circuit.ops.iter().enumerate() {
+                eprintln!("op {i}: {op:?}");
+            }
+            let mut tags: Vec<_> = circuit.tag_to_witness.iter().collect();
+            tags.sort();
+            eprintln!("tags: {tags:?}");
+            eprintln!("public_rows {:?} private_rows {:?}", circuit.public_rows, circuit.private_input_rows);
+            for (i, v) in w.iter().enumerate() {
+                eprintln!("w[{i}] = {v:?}");
+            }
         }
-        let mut tags: Vec<_> = circuit.tag_to_witness.iter().collect();
-        tags.sort();
-        eprintln!("tags: {tags:?}");
-        eprintln!("public_rows {:?} private_rows {:?}", circuit.public_rows, circuit.private_input_rows);
-        for (i, v) in w.iter().enumerate() {
-            eprintln!("w[{i}] = {v:?}");
+        if opsat::ops_violation(&circuit, &w, &pubs).is_some() {
+            return Verdict::Fine; // the emitted ops do reject this assignment
         }
-    }
-    if opsat::ops_violation(&circuit, &w, &pubs).is_some() {
-        return Verdict::Fine; // the emitted ops do reject this assignment
-    }
-    // Does the assignment satisfy the *source program*? Inputs are whatever the assignment holds
-    // in the input slots (private inputs are the prover's choice); every asserted relation must
-    // hold and every expression's slot must hold the value the expression denotes.
-    let mut q = p.clone();
-    for (i, wid) in circuit.public_rows.iter().enumerate() {
-        q.publics[i] = gprog::f_to_u64s::<U::BF, U::EF>(&w[wid.0 as usize]);
-    }
-    for (i, wid) in circuit.private_input_rows.iter().enumerate() {
-        q.privates[i] = gprog::f_to_u64s::<U::BF, U::EF>(&w[wid.0 as usize]);
-    }
-    // hinted decomposition coefficients are the prover's choice too: read them off the assignment
-    let mut hinted = std::collections::BTreeMap::new();
-    let d = <U::EF as p3_field::BasedVectorSpace<U::BF>>::DIMENSION;
-    for (ci, c) in p.calls.iter().enumerate() {
-        if matches!(c, gprog::Call::DecomposeExt(_)) {
-            for i in r.out_base[ci]..r.out_base[ci] + d {
-                if let Some(wid) = circuit.tag_to_witness.get(&format!("v{i}")) {
-                    hinted.insert(i, w[wid.0 as usize]);
+        // Does the assignment satisfy the *source program*? Inputs are whatever the assignment holds
+        // in the input slots (private inputs are the prover's choice); every asserted relation must
+        // hold and every expression's slot must hold the value the expression denotes.
+        let mut q = p.clone();
+        for (i, wid) in circuit.public_rows.iter().enumerate() {
+            q.publics[i] = gprog::f_to_u64s::<U::BF, U::EF>(&w[wid.0 as usize]);
+        }
+        for (i, wid) in circuit.private_input_rows.iter().enumerate() {
+            q.privates[i] = gprog::f_to_u64s::<U::BF, U::EF>(&w[wid.0 as usize]);
+        }
+        // hinted decomposition coefficients are the prover's choice too: read them off the assignment
+        let mut hinted = std::collections::BTreeMap::new();
+        let d = <U::EF as p3_field::BasedVectorSpace<U::BF>>::DIMENSION;
+        for (ci, c) in p.calls.iter().enumerate() {
+            if matches!(c, gprog::Call::DecomposeExt(_)) {
+                for i in r.out_base[ci]..r.out_base[ci] + d {
+                    if let Some(wid) = circuit.tag_to_witness.get(&format!("v{i}")) {
+                        hinted.insert(i, w[wid.0 as usize]);
+                    }
                 }
             }
         }
-    }
-    let r2 = gprog::ref_eval_hinted::<U::BF, U::EF>(&q, &hinted);
-    if r2.precond_violated || r2.div_zero {
-        return Verdict::Skipped("precondition");
-    }
-    let mut why = r2.first_violation.clone();
-    if why.is_none() {
-        // the product slot of a fused MulAdd that nothing else mentions is a don't-care
-        let dont_care = opsat::pure_intermediate_slots(&circuit);
-        for (i, v) in r2.vals.iter().enumerate() {
-            if let (Some(v), Some(wid)) = (v, circuit.tag_to_witness.get(&format!("v{i}"))) {
-                if w[wid.0 as usize] != *v && !dont_care.contains(&wid.0) {
-                    let ci = r2.out_base.iter().rposition(|b| *b <= i).unwrap_or(0);
-                    why = Some(format!("call {ci}: slot of the expression holds a value the expression does not denote"));
-                    break;
+        let r2 = gprog::ref_eval_hinted::<U::BF, U::EF>(&q, &hinted);
+        if r2.precond_violated || r2.div_zero {
+            return Verdict::Skipped("precondition");
+        }
+        let mut why = r2.first_violation.clone();
+        if why.is_none() {
+            // the product slot of a fused MulAdd that nothing else mentions is a don't-care
+            let dont_care = opsat::pure_intermediate_slots(&circuit);
+            for (i, v) in r2.vals.iter().enumerate() {
+                if let (Some(v), Some(wid)) = (v, circuit.tag_to_witness.get(&format!("v{i}"))) {
+                    if w[wid.0 as usize] != *v && !dont_care.contains(&wid.0) {
+                        let ci = r2.out_base.iter().rposition(|b| *b <= i).unwrap_or(0);
+                        why = Some(format!("call {ci}: slot of the expression holds a value the expression does not denote"));
+                        break;
+                    }
                 }
             }
         }
+        let Some(why) = why else {
+            return Verdict::Fine; // the assignment satisfies the source program too
+        };
+        // confirm with the real prover and verifier
+        let traces = opsat::traces_from_assignment(&circuit, &w);
+        let confirmed = (|| -> Result<(), pipe::Fail> {
+            let (keys, info) = pipe::keygen::<U>(&circuit, cfg)?;
+            let proof = pipe::prove::<U>(&keys, &traces, cfg, None)?;
+            pipe::verify::<U>(&proof, cfg, &info.commitment)
+        })();
+        match confirmed {
+            Ok(()) => Verdict::DroppedConfirmed(why),
+            Err(f) => Verdict::DroppedUnconfirmed(format!("{why}; forged trace rejected at {}: {}", f.stage.name(), f.msg.chars().take(120).collect::<String>())),
+        }
+        })();
+        match (&v, dev) {
+            (Verdict::Fine, _) => {}
+            (_, None) => return v,
+            (Verdict::DroppedConfirmed(_) | Verdict::DroppedUnconfirmed(_), Some(_)) => return v,
+            _ => {}
+        }
     }
-    let Some(why) = why else {
-        return Verdict::Fine; // the assignment satisfies the source program too
-    };
-    // confirm with the real prover and verifier
-    let traces = opsat::traces_from_assignment(&circuit, &w);
-    let confirmed = (|| -> Result<(), pipe::Fail> {
-        let (keys, info) = pipe::keygen::<U>(&circuit, cfg)?;
-        let proof = pipe::prove::<U>(&keys, &traces, cfg, None)?;
-        pipe::verify::<U>(&proof, cfg, &info.commitment)
-    })();
-    match confirmed {
-        Ok(()) => Verdict::DroppedConfirmed(why),
-        Err(f) => Verdict::DroppedUnconfirmed(format!("{why}; forged trace rejected at {}: {}", f.stage.name(), f.msg.chars().take(120).collect::<String>())),
-    }
+    Verdict::Fine
 }
 
 /// Finding key: which kind of source relation was dropped (the call kind of the first violated
